@@ -404,6 +404,30 @@ func ifaceKey(cc *ssa.CallCommon) string {
 	return shortTypeName(t) + "." + cc.Method.Name()
 }
 
+// ifaceContractAt: a contract written for one call site (interface <iface>.<method>@<caller>) takes precedence there.
+func (ex *Exec) ifaceContractAt(cc *ssa.CallCommon, caller *ssa.Function) (*FuncContract, bool) {
+	if caller != nil && caller.Pkg != nil && cc.Method != nil {
+		at := "@" + caller.Pkg.Pkg.Name() + "." + caller.RelString(caller.Pkg.Pkg)
+		suffix := "." + cc.Method.Name() + at
+		for k, c := range ex.P.CS.Ifaces {
+			if !strings.HasSuffix(k, suffix) {
+				continue
+			}
+			if k == ifaceKey(cc)+at {
+				return c, true
+			}
+			if it := ex.lookupIface(strings.TrimSuffix(k, suffix)); it != nil {
+				for i := 0; i < it.NumMethods(); i++ {
+					if it.Method(i) == cc.Method {
+						return c, true
+					}
+				}
+			}
+		}
+	}
+	return ex.ifaceContract(cc), false
+}
+
 func (ex *Exec) ifaceContract(cc *ssa.CallCommon) *FuncContract {
 	if c, ok := ex.P.CS.Ifaces[ifaceKey(cc)]; ok {
 		return c
@@ -527,14 +551,22 @@ func (ex *Exec) doCall(fr *frame, st *State, cc *ssa.CallCommon, fnv Val, args [
 		if err != nil {
 			ex.fail("%v", err)
 		}
-		if ex.topC != nil && ex.topC.NoCalls && ex.noOblige == 0 && !ex.isOpaqueInvoke(cc) {
+		allowedInvoke := false
+		if ex.topC != nil {
+			for _, a := range ex.topC.Allow {
+				if cc.Method.Name() == a {
+					allowedInvoke = true
+				}
+			}
+		}
+		if ex.topC != nil && ex.topC.NoCalls && ex.noOblige == 0 && !ex.isOpaqueInvoke(cc) && !allowedInvoke {
 			ex.oblige(st, "call.unreachable", "call to "+ifaceKey(cc)+" must not be reached", ex.p.False(), pos)
 			ex.havocAllQuiet(st)
 			ex.setResult(st, instr, ex.freshResults(st, cc.Signature(), cc.Method.Name()))
 			return
 		}
-		if c := ex.ifaceContract(cc); c != nil {
-			names := c.Params
+		if c, atSite := ex.ifaceContractAt(cc, fr.fn); c != nil {
+			names := append([]string(nil), c.Params...)
 			if len(names) == 0 {
 				names = []string{"self"}
 				for i := 0; i < cc.Signature().Params().Len(); i++ {
@@ -545,6 +577,18 @@ func (ex *Exec) doCall(fr *frame, st *State, cc *ssa.CallCommon, fnv Val, args [
 			ptypes := []types.Type{cc.Value.Type()}
 			for i := 0; i < cc.Signature().Params().Len(); i++ {
 				ptypes = append(ptypes, cc.Signature().Params().At(i).Type())
+			}
+			if atSite {
+				for len(names) < len(ptypes) {
+					names = append(names, "_")
+				}
+				for _, cp := range fr.fn.Params {
+					if v, ok := st.vals[cp]; ok {
+						names = append(names, "caller."+cp.Name())
+						ptypes = append(ptypes, cp.Type())
+						all = append(all, v)
+					}
+				}
 			}
 			ex.setResult(st, instr, ex.contractCall(fr, st, c, ifaceKey(cc), cc.Signature(), names, ptypes, all, pos))
 			return
@@ -673,7 +717,10 @@ func (ex *Exec) callKnown(fr *frame, st *State, cc *ssa.CallCommon, callee *ssa.
 		// constructors of errors return non-nil
 		switch callee.String() {
 		case "fmt.Errorf", "errors.New":
+			// a newly allocated error value: non-nil and different from every reference that existed before
 			ex.facts = append(ex.facts, ex.p.Gt(r.(*Term), ex.p.Int(0)))
+			ex.assume(st, ex.p.Ge(r.(*Term), st.heapTop))
+			st.heapTop = ex.p.Add(r.(*Term), ex.p.Int(1))
 			ex.errFresh(st, r.(*Term))
 		}
 		setRes(r)
